@@ -34,8 +34,10 @@ def one_model(chk, binary, name, model, cfg, stats):
         chk.violation("C17:driver-crashed", "driver for %s died (rc=%s): %s" % (name, res.get("run_rc"), (m.group(0) if m else res.get("run_err", "")[:400])), tag)
         return
     viol, st = bgrun.judge(em, model, res)
+    sv, ns = bgrun.judge_sizes(em, model, res.get("sizes", {}), "C")
+    st["sizes_compared"] = ns
     seen = set()
-    for sig, d in viol:
+    for sig, d in viol + [("C17:" + s, d) for s, d in sv]:
         if sig not in seen:
             seen.add(sig)
             chk.violation(sig, "model %s (config %s): %s" % (name, cfg, d), tag)
@@ -65,7 +67,9 @@ def one_model_cpp(chk, binary, name, model, em, cfg, stats):
             chk.violation(sig, "C++ model %s (config %s): wrappers of %s %s (%s, %s) cannot be used: %s" % (name, cfg, x["kind"], x["name"], x["inst"], x["ctx"] or "NoContext", msg), tag)
     ok_roots = set(range(len(em.roots))) - failed_roots
     viol, st = bgrun.judge(em, model, res, only_roots=ok_roots)
-    for sig, d in viol:
+    sv, ns = bgrun.judge_sizes(em, model, res.get("sizes", {}), "C++")
+    st["sizes_compared"] = ns
+    for sig, d in viol + [("C17:" + s, d) for s, d in sv]:
         sig = sig.replace("C17:", "C17:cpp:", 1)
         if sig not in seen:
             seen.add(sig)
@@ -146,6 +150,7 @@ def run(chk, replay=None):
                             "argument check, sequence); every wrapper of the processed header is called with sentinel arguments under ASan+UBSan. The same models are also emitted in "
                             "cbindgen's C++ shape (templates, `using` chains, opaque zero-sized items); there each root type gets its own C++ driver (g++ -std=c++11; thorough adds clang++ and "
                             "c++17) that fills template vtables with mocks, calls every member-function wrapper, consumes through `std::move(obj).f()` and lets destructors run. "
+                            "sizeof every object and container type as the C/C++ compiler sees it in the processed header is compared with the size the Rust definitions give it. "
                             "evaluations = wrapper calls; distinct = vtable entries reached")
     chk.floor("wrapper calls", stats.get("calls", 0), 200)
     chk.floor("models", stats.get("models", 0), 20)
